@@ -243,6 +243,12 @@ def check(prog, rep, tier):
     rep.rule('R07.h', 'flowspec operator octet: for every octet 0..255 the decoder extracts the RFC 5575 fields '
                       '(e, a, len = 1 << bits 5..4, lt, gt, eq); every length the encoder accepts is encoded as the '
                       'code the decoder maps back to it')
+    rep.rule('R07.i', 'field boundaries: no comparison in the NLRI / MP codecs splits a range between 2**k - 2 and '
+                      '2**k - 1')
+    rep.rule('R07.j', 'EVPN route decoders never drop or truncate a route: every returning path of a route-type parse '
+                      'yields every key its sibling encoder reads unconditionally')
+    rep.rule('R07.k', 'IPv6 unicast MP_REACH next hop: the link-local part is reported exactly when the next-hop '
+                      'length is 32, independent of the address values')
     rep.assumptions += ['value equality of the round trip is not decided',
                         'a MAC address has six groups (b"".join of one octet per group is 6 octets)']
 
@@ -444,6 +450,87 @@ def check(prog, rep, tier):
     if not sites:
         rep.ok('R07.g', 'order-kept', found='%d codec functions scanned' % nf)
     rep.floor('R07.g', 'codec functions', nf, 60)
+
+    # ---------------------------------------------------------------- R07.j
+    evpn_mod = prog.module('yabgp.message.attribute.nlri.evpn')
+    nrt = 0
+    for cname, ci in sorted(evpn_mod.classes.items()):
+        fc, fp = ci.methods.get('construct'), ci.methods.get('parse')
+        if cname == 'EVPN' or fc is None or fp is None:
+            continue
+        nrt += 1
+        vparam = fc.params[1] if len(fc.params) > 1 else 'value'
+        need = set()
+        for st_ in fc.node.body:           # top-level statements only: read on every path
+            if isinstance(st_, (ast.If, ast.For, ast.While, ast.Try)):
+                continue
+            for n in ast.walk(st_):
+                if isinstance(n, ast.Subscript) and isinstance(n.value, ast.Name) and n.value.id == vparam and \
+                        isinstance(n.slice, ast.Constant) and isinstance(n.slice.value, str):
+                    need.add(n.slice.value)
+        key = 'route-keys:%s' % cname
+        try:
+            _f, outs = codec.run(prog, fp.qualname, [Opaque('value', 'bytes')], {}, may_raise=False, unique=True)
+        except AnalysisError as e:
+            rep.undecided('R07.j', key, file=fp.file, line=fp.node.lineno, found=str(e))
+            continue
+        bad = None
+        nv = 0
+        for k, v, st_ in outs:
+            if k != 'val':
+                continue
+            nv += 1
+            keys = set(st_.heap[v.oid].items) if isinstance(v, Obj) and v.oid in st_.heap and \
+                st_.heap[v.oid].kind == 'dict' else None
+            if keys is None or not need <= keys:
+                guards = ' & '.join(('%s' if b else 'not %s') % t for t, b, l, q in st_.path[-3:])
+                bad = bad or 'a path returns %s without %s (%s): the route is dropped or comes back incomplete ' \
+                             'although the encoder requires these keys' % (
+                                 'a route' if keys is not None else v.desc()[:40],
+                                 sorted(need - (keys or set())), guards or 'unconditional')
+        if bad:
+            rep.bad('R07.j', key, file=fp.file, line=fp.node.lineno, func=fp.qualname, found=bad,
+                    expected='every returning path yields %s' % sorted(need), key=key)
+        elif nv and need:
+            rep.ok('R07.j', key, file=fp.file, line=fp.node.lineno, found='%d path(s), keys %s' % (nv, sorted(need)))
+        else:
+            rep.undecided('R07.j', key, file=fp.file, line=fp.node.lineno, found='no returning path / no mandatory key')
+    rep.floor('R07.j', 'EVPN route types', nrt, 5)
+
+    # ---------------------------------------------------------------- R07.k
+    fpm = prog.func(MPR + '.parse')
+    for nhlen, want_ll in ((16, False), (32, True)):
+        key = 'ipv6-nexthop:%d' % nhlen
+        val = BytesV([('lit', b'\x00\x02\x01' + bytes([nhlen])), ('fix', nhlen, 'nh'), ('lit', b'\x00'),
+                      ('opq', Opaque('nlri', 'bytes'))])
+        try:
+            _f, outs = codec.run(prog, MPR + '.parse', [val], {}, may_raise=False, unique=True, record_slices=True)
+        except AnalysisError as e:
+            rep.undecided('R07.k', key, file=fpm.file, line=fpm.node.lineno, found=str(e))
+            continue
+        bad = None
+        nv = 0
+        for k, v, st_ in outs:
+            if k != 'val' or not isinstance(v, Obj) or v.oid not in st_.heap:
+                continue
+            nv += 1
+            has = 'linklocal_nexthop' in st_.heap[v.oid].items
+            if has != want_ll:
+                guards = ' & '.join(('%s' if b else 'not %s') % t for t, b, l, q in st_.path[-3:])
+                bad = bad or 'IPv6 unicast MP_REACH with a %d-octet next hop: a path returns %s linklocal_nexthop ' \
+                             '(%s)' % (nhlen, 'a' if has else 'no', guards or 'unconditional')
+        if bad:
+            rep.bad('R07.k', key, file=fpm.file, line=fpm.node.lineno, func=fpm.qualname, found=bad,
+                    expected='link-local part reported exactly when the next hop is 32 octets, whatever its content',
+                    key=key)
+        elif nv:
+            rep.ok('R07.k', key, file=fpm.file, line=fpm.node.lineno, found='%d path(s)' % nv)
+        else:
+            rep.undecided('R07.k', key, file=fpm.file, line=fpm.node.lineno, found='no returning path')
+
+    # ---------------------------------------------------------------- R07.i
+    common.report_boundary_splits(prog, rep, 'R07.i', lambda fn: fn.module.name.startswith((
+        'yabgp.message.attribute.nlri', 'yabgp.message.attribute.mpreachnlri', 'yabgp.message.attribute.mpunreachnlri')))
 
     # ---------------------------------------------------------------- R07.h
     for fsq in ('yabgp.message.attribute.nlri.ipv4_flowspec.IPv4FlowSpec',
